@@ -16,6 +16,7 @@ package vault
 //vx:redirect (*github.com/openbao/openbao/v2/internal/vault.ExpirationManager).updatePending vxUpdatePending
 //vx:redirect (*github.com/openbao/openbao/v2/internal/vault.ExpirationManager).loadEntry vxLoadEntry
 //vx:noop github.com/hashicorp/go-metrics/compat.*
+//vx:param failures quick=2 thorough=3
 //vx:unwind 200
 
 import (
@@ -150,14 +151,11 @@ func VxRegister() {
 	ctx := namespace.RootContext(context.Background())
 	m := &ExpirationManager{router: &routing.Router{}, quitContext: context.Background()}
 	vxL, vxStored = &vxLeaseWorld{}, nil
-	// every single and double failure
-	f1 := vxChoose("first failing collaborator (7 = none)", 8)
-	f2 := vxChoose("second failing collaborator (7 = none)", 8)
-	if f1 < 7 {
-		vxL.failMask |= 1 << f1
-	}
-	if f2 < 7 {
-		vxL.failMask |= 1 << f2
+	// every single and double (thorough: triple) failure
+	for i := 0; i < vxParam("failures"); i++ {
+		if f := vxChoose("failing collaborator (7 = none)", 8); f < 7 {
+			vxL.failMask |= 1 << f
+		}
 	}
 	vxL.ambiguous = vxBool("a failed write reached storage all the same")
 	te := &logical.TokenEntry{ID: "tok", Type: logical.TokenTypeService}
